@@ -34,6 +34,7 @@ import (
 	"sort"
 	"strings"
 	"sync"
+	"sync/atomic"
 
 	"github.com/specterops/dawgs/algo"
 	"github.com/specterops/dawgs/cache"
@@ -656,11 +657,35 @@ func main() {
 	}
 
 	var (
-		wg  sync.WaitGroup
-		sem = make(chan struct{}, 16)
+		wg           sync.WaitGroup
+		sem          = make(chan struct{}, 16)
+		staticFailed atomic.Bool
 	)
 
-	// static part
+	// static part. Of each violation class the case that comes first in enumeration order (the simplest) is reported,
+	// whatever the goroutine interleaving.
+	type firstCase struct {
+		seq   int
+		v     core.Violation
+		count int64
+	}
+	var (
+		firstMu    sync.Mutex
+		first      = map[string]*firstCase{}
+		enumerated int
+	)
+	keep := func(seq int, v core.Violation) {
+		firstMu.Lock()
+		defer firstMu.Unlock()
+		if cur, ok := first[v.Class]; !ok {
+			first[v.Class] = &firstCase{seq: seq, v: v, count: 1}
+		} else {
+			cur.count++
+			if seq < cur.seq {
+				cur.seq, cur.v = seq, v
+			}
+		}
+	}
 	for _, fam := range b.static {
 		var batch []graphs.Graph
 		flush := func() {
@@ -668,18 +693,21 @@ func main() {
 				return
 			}
 			work := batch
+			base := enumerated - len(batch)
 			batch = nil
 			wg.Add(1)
 			sem <- struct{}{}
 			go func() {
 				defer wg.Done()
 				defer func() { <-sem }()
-				for _, g := range work {
-					for _, prof := range fam.Profiles {
-						for _, cont := range []string{"csr", "adj"} {
+				for k, g := range work {
+					for pi, prof := range fam.Profiles {
+						for ci, cont := range []string{"csr", "adj"} {
+							seq := (base+k)*16 + pi*2 + ci
 							run.Add("static_cases", 1)
 							if v := staticCheck(newSpec(g, prof, cont)); v != nil {
-								run.Report(*v)
+								staticFailed.Store(true)
+								keep(seq, *v)
 							}
 						}
 					}
@@ -692,6 +720,7 @@ func main() {
 				return false
 			}
 			batch = append(batch, g)
+			enumerated++
 			if len(batch) == 512 {
 				flush()
 			}
@@ -700,6 +729,19 @@ func main() {
 		flush()
 	}
 	wg.Wait()
+	for _, fc := range first {
+		run.Report(fc.v)
+		run.Add("static_violating_cases", fc.count)
+	}
+	if staticFailed.Load() {
+		// A wrong decomposition can make the component digraph cyclic, on which the depth-first reach computation need
+		// not terminate; the static families contain every graph of the history families, so nothing is hidden.
+		run.Capped("history part skipped: the static part (SCC decomposition / component graph) already failed")
+		run.Set("states", int64(0))
+		run.Set("transitions", int64(0))
+		run.Set("traces_validated_against_impl", int64(0))
+		run.Finish()
+	}
 
 	// history part: problems are generated and dispatched one by one (nothing is materialised up front)
 	var (
@@ -747,6 +789,7 @@ func main() {
 			}
 			return true
 		})
+		wg.Wait() // families are ordered simplest first: a smaller family reports before a larger one starts
 		if stop {
 			break
 		}
